@@ -188,8 +188,10 @@ def create_flow_instance(
             flow_state.arguments[param.name] = val
             flow_state.arguments[positional_param] = val
 
-    # Add all flow return members
+    # Add all flow return members (a parameter with the same name keeps its value)
     for idx, member in enumerate(flow_config.return_members):
+        if member.name in flow_state.arguments:
+            continue
         flow_state.context.update(
             {
                 member.name: (
